@@ -255,6 +255,9 @@ def run(prog: Program, rep: Report, tier: str = "quick") -> None:
             seen.add(key)
             rep.add(Instance(d["rule"], d["verdict"], d["module"], d["function"], d["construct"], d["line"], d.get("message", ""), d.get("detail", {})))
     n = len(roles)
+    from . import game
+
+    game.add_instances(rep, game.c03_job, [(i, tier) for i in range(n)], "R3.5", 30 * n)
     rep.floor("R3.1", 8 * n)
     rep.floor("R3.2", 2 * n)
     rep.floor("R3.3", 2 * n)
